@@ -263,6 +263,24 @@ func checkC18(c *Ctx) {
 				g2 := guarded(f, probe, Atom{"(" + orderEq(pathOf(lk)+"#1", "nil") + ")", true})
 				r.Check(g1 && g2, "C18.2", "PhantomIsLive: probe only after a cache miss without error", probe.Pos(), fnName(f), "dominated by !live && err == nil of phantomLookup",
 					"the probe is sent although the cache answered (or the cached answer is ignored)")
+				// "otherwise the phantom is probed again": an answer that does not come from one of the two caches
+				// comes from a probe made in this call - there is no third memory of earlier verdicts
+				hit := edgesEstablishing(f, atomMatcher(Atom{pathOf(lk) + "#0", true}, Atom{"(" + orderEq(pathOf(lk)+"#1", "nil") + ")", false}))
+				noProbe := false
+				var wit []int
+				eachInstr(f, func(in ssa.Instruction) {
+					if ret, ok := in.(*ssa.Return); ok && ret.Block().Comment != "recover" {
+						if free, w := reach(f, nil, isInstr(ret), isInstr(probe), hit); free {
+							noProbe, wit = true, w
+						}
+					}
+				})
+				if noProbe {
+					r.Bad("C18.2", "PhantomIsLive: an answer can be returned without a cache hit and without probing", lk.Pos(), fnName(f),
+						"a path returns a verdict that comes neither from the live / non-live cache nor from a probe made in this call: some other record of an earlier verdict is served, with no lifetime and no capacity bound", r.blockPath(f, wit)...)
+				} else {
+					r.OK("C18.2", "PhantomIsLive: every answer is a cache hit or a probe made in this call", lk.Pos(), "no return reachable without the probe except through the cache-hit edges")
+				}
 			}
 		}
 	}
